@@ -140,6 +140,10 @@ class CuckooSystem(System):
                     for sw in (3, 4):
                         cfgs.append(dict(cls=cls, capacity=cap, bucket=bs, swaps=sw, auto=auto, alt=alt, nfp=2 * cap * bs + 2,
                                          depth=cap * bs + 4, budget=budget, cost=budget))
+            # the expansion_rate and auto_expand setters flipped in mid-history (rate 1 makes expansions fail, rate 3 triples)
+            for cap, bs, alt in ((1, 2, "other"), (2, 1, "pair"), (2, 2, "other")):
+                cfgs.append(dict(cls=cls, capacity=cap, bucket=bs, swaps=2, auto=True, alt=alt, nfp=2 * cap * bs + 2, setters=True,
+                                 depth=cap * bs + 4, budget=budget, cost=budget))
             # keys whose raw fingerprint is 0 (0 is the empty-slot marker of the export)
             for cap, bs, auto, alt in ((2, 2, True, "other"), (3, 1, True, "other"), (3, 2, False, "other"), (1, 2, True, "other"),
                                        (3, 1, True, "pair")):
@@ -180,9 +184,14 @@ class CuckooSystem(System):
         keys = _keys(cfg)
         evs = [("add", i) for i in range(len(keys))]
         evs += [("remove", i) for i in range(len(keys))]
-        if st.impl.capacity < cfg["capacity"] * 4:
+        if st.impl.capacity < cfg["capacity"] * 4 or (cfg.get("setters") and st.impl.capacity < cfg["capacity"] * 9):
             evs.append(("expand",))
         evs.append(("reload",))  # continue the history on the object obtained by loading an export
+        if cfg.get("setters"):
+            evs.append(("set_auto", not st.impl.auto_expand))
+            for r in (1, 2, 3):
+                if r != st.impl.expansion_rate:
+                    evs.append(("set_rate", r))
         return evs
 
     # ---- transitions: all resolutions of the random draws
@@ -210,6 +219,10 @@ class CuckooSystem(System):
                         m["fp"][fp] -= 1
                         if m["fp"][fp] <= 0:
                             del m["fp"][fp]
+            elif ev[0] == "set_auto":
+                obs = call(setattr, f, "auto_expand", ev[1])
+            elif ev[0] == "set_rate":
+                obs = call(setattr, f, "expansion_rate", ev[1])
             elif ev[0] == "reload":
                 er = cfg.get("by_rate")
                 hf = make_hash(cfg)
